@@ -189,6 +189,12 @@ func (l *Lowerer) call(ce *ast.CallExpr) ([]*Term, []types.Type) {
 				s, _ := l.tr(ce.Args[0])
 				return []*Term{App("dyntype", "Int", s)}, []types.Type{types.Typ[types.Int]}
 			}
+		case "implements":
+			if l.spec {
+				// implements(x, I): the type assertion x.(I) to the interface I succeeds
+				s, _ := l.tr(ce.Args[0])
+				return []*Term{l.implementsTerm(s, l.specType(ce.Args[1]))}, []types.Type{types.Typ[types.Bool]}
+			}
 		case "typeid":
 			if l.spec {
 				return []*Term{l.p.typeID(l.specType(ce.Args[0]))}, []types.Type{types.Typ[types.Int]}
